@@ -104,8 +104,29 @@ def gen_case(rnd, prop, tier):
         for cl in cliques:
             shape = [sizes[attrs.index(a)] for a in cl]
             pots2.append(gen.gen_potential(rnd, shape, scale, ninf, [witness[a] for a in cl]))
+    roundtrip = rnd.choice([None, None, None, 'pickle', 'deepcopy'])
+    if roundtrip and n >= 4 and rnd.random() < 0.6:
+        # a model built with a caller-chosen elimination order on a cyclic structure, copied / pickled before it is sampled
+        elim = list(attrs)
+        rnd.shuffle(elim)
+        sizes = [rnd.choice([2, 2, 3, 6, 8]) for _ in attrs]          # uneven sizes: the cheapest variable to eliminate need not be simplicial
+        while int(np.prod(sizes)) > 4096:
+            sizes[rnd.randrange(n)] = 2
+        witness = {a: witness[a] % sizes[attrs.index(a)] for a in attrs}
+        cliques, kind = gen.gen_cliques(rnd, attrs, kind=rnd.choice(['cycle', 'chain', 'tree']), max_width=2)
+        if rnd.random() < 0.6:
+            deg = {a: sum(1 for cl in cliques if a in cl and len(cl) > 1) for a in attrs}
+            sizes = [rnd.choice([6, 8]) if deg[a] == 1 else 2 for a in attrs]     # big leaves, small inner attributes
+            while int(np.prod(sizes)) > 4096:
+                sizes[sizes.index(max(sizes))] = 3
+            witness = {a: witness[a] % sizes[attrs.index(a)] for a in attrs}
+        pots = []
+        for cl in cliques:
+            shape = [sizes[attrs.index(a)] for a in cl]
+            pots.append(gen.gen_potential(rnd, shape, scale, ninf, [witness[a] for a in cl]))
+        pots2 = None
     return dict(engine='E', attrs=attrs, sizes=sizes, cliques=cliques, kind=kind, pots=pots, pots2=pots2, total=total, elim=elim, method=method,
-                rows=rows, rows2=rows2, cache=cache, roundtrip=rnd.choice([None, None, None, 'pickle', 'deepcopy']), policy=dict(name=pol, rates=rates, shuffle=shuffle), rng_seed=rnd.getrandbits(32), fold='harness')
+                rows=rows, rows2=rows2, cache=cache, roundtrip=roundtrip, policy=dict(name=pol, rates=rates, shuffle=shuffle), rng_seed=rnd.getrandbits(32), fold='harness')
 
 
 def sample_view(case):
